@@ -1,11 +1,12 @@
 /* C04: x-only / keypair / Taproot-tweak entry points of src/modules/extrakeys/main_impl.h.
- * Gates, zeroing and oracle wiring (ecmult, ecmult_gen, ge_set_gej are ASSUMED oracles with ghost
- * logs); parity bookkeeping, secret-key negation/addition, serialisation and comparison are REAL code.
- * Every pointer NULL-or-object, every byte content.  One entry per unit (-DU_<ENTRY>).
- *
- * Keypair object view (96 bytes): sk = big-endian integer of bytes 0..31, public part = pubkey object
- * view of bytes 32..95 (see pubkey_real.c).  A keypair is INVALID iff x = 0 or not 0 < sk < n (what
- * secp256k1_keypair_load rejects with the illegal callback). */
+ * ecmult, ecmult_gen, ge_set_gej are ASSUMED oracles with ghost logs; parity bookkeeping, secret-key
+ * negation/addition, serialisation and comparison are REAL code.  Every pointer NULL-or-object, every byte
+ * content.  One entry per unit (-DU_<ENTRY>).
+ * Rule followed (audit 1): only what property C04 / include/secp256k1_extrakeys.h promise.  On failure: ret and
+ * "set to an invalid value" (output pubkey rejected by pubkey_load; keypair rejected by keypair_load, i.e. public
+ * half invalid or secret half failing seckey_verify).  No call counts or dummy operands on failure paths, nothing
+ * about outputs of NULL-argument calls.  Opaque objects are decoded through the TU's own ge_from_bytes /
+ * keypair_sec / keypair_pub (spec.h views), never byte-wise; coordinates compared mod p. */
 #define LOG_ECMULT
 #define LOG_ECMULT_GEN
 #define LOG_GE_SET_GEJ
@@ -13,69 +14,77 @@
 #include "spec.h"
 #include "src/secp256k1.c"
 #include "post.h"
+#define SPEC_VIEWS
+#include "spec.h"
 
 #define GEJ_EQ(a, b) (FE_EQ((a).x, (b).x) && FE_EQ((a).y, (b).y) && FE_EQ((a).z, (b).z) && (a).infinity == (b).infinity)
-#define PK_IS(data, ge) (sp_eq(sp_le32(data), sp_modp(fval(&(ge).x))) && sp_eq(sp_le32((data) + 32), sp_modp(fval(&(ge).y))))
+#define IS_POINT(gej, xv, yv) (sp_eq(sp_modp8(fval(&(gej).x)), xv) && sp_eq(sp_modp8(fval(&(gej).y)), yv) && sp_eq(sp_modp(fval(&(gej).z)), sp_u64(1)) && (gej).infinity == 0)
+/* the logged ecmult call computes 1*P + t*G (t = 0: ng may be NULL or zero) */
+#define ADDS_TWEAK(tv) (g_ecmult_has_na0 && sp_eq(sval(&g_ecmult_na0), sp_u64(1)) && (sp_is0(tv) ? (!g_ecmult_has_ng0 || sp_is0(sval(&g_ecmult_ng0))) : (g_ecmult_has_ng0 && sp_eq(sval(&g_ecmult_ng0), tv))))
 #define LOGS_RESET() do { g_ecmult_n = 0; g_gen_n = 0; g_sg_n = 0; } while (0)
 
 #ifdef U_KEYPAIR_CREATE
 void h_keypair_create(void) {
     secp256k1_context ctx;
-    INPUT(secp256k1_keypair, kp); INPUT_ARR(unsigned char, key, 32); INPUT(_Bool, use_kp); INPUT(_Bool, use_key); INPUT(int, built); INPUT(size_t, k);
-    int ret; sp kv = sp_be32(key);
+    INPUT(secp256k1_keypair, kp); INPUT_ARR(unsigned char, key, 32); INPUT(_Bool, use_kp); INPUT(_Bool, use_key); INPUT(int, built);
+    int ret, oinv; sp kv = sp_be32(key), osk, ox, oy;
     verif_ctx_init(&ctx); LOGS_RESET();
     ctx.ecmult_gen_ctx.built = built;
-    __CPROVER_assume(k < 96);
     ret = secp256k1_keypair_create(&ctx, use_kp ? &kp : NULL, use_key ? key : NULL);
     __CPROVER_assert(g_error == 0, "C04 keypair_create: error callback never invoked");
-    if (!use_kp) __CPROVER_assert(ret == 0 && g_illegal == 1 && g_gen_n == 0, "C04 keypair_create: NULL keypair is illegal and returns 0");
-    else if (!built || !use_key) __CPROVER_assert(ret == 0 && g_illegal == 1 && g_gen_n == 0 && kp.data[k] == 0, "C04 keypair_create: static/unbuilt context or NULL key is illegal, returns 0, keypair zeroed");
+    if (!use_kp || !use_key) __CPROVER_assert(ret == 0 && g_illegal == 1, "C04 keypair_create: NULL argument is illegal and returns 0");
+    else if (!built) __CPROVER_assert(ret == 0 && g_illegal == 1, "C04 keypair_create: static/unbuilt context is illegal and returns 0");
     else {
+        view_keypair(&kp, &osk, &ox, &oy, &oinv);
         __CPROVER_assert(g_illegal == 0, "C04 keypair_create: no illegal callback for proper arguments");
         __CPROVER_assert(ret == sp_seckey_valid(kv), "C04 keypair_create: returns 1 exactly for 0 < key < n");
-        if (ret == 0) {
-            __CPROVER_assert(kp.data[k] == 0, "C04 keypair_create: invalid key leaves an all-zero (invalid) keypair");
-            __CPROVER_assert(g_gen_n == 1 && sp_eq(sval(&g_gen_a0), sp_u64(1)), "C04 keypair_create: invalid key is masked to 1 before the multiplication");
-        } else {
-            __CPROVER_assert(sp_eq(sp_be32(kp.data), kv), "C04 keypair_create: secret half is the key");
-            __CPROVER_assert(g_gen_n == 1 && sp_eq(sval(&g_gen_a0), kv), "C04 keypair_create: the generator is multiplied by the key");
-            __CPROVER_assert(g_sg_n == 1 && GEJ_EQ(g_sg_a0, g_gen_r0) && PK_IS(kp.data + 32, g_sg_r0), "C04 keypair_create: public half is the multiplication result, reduced mod p");
+        if (ret == 0) __CPROVER_assert(oinv || !sp_seckey_valid(osk), "C04 keypair_create: an invalid key yields no usable keypair (rejected by keypair_load)");
+        else {
+            __CPROVER_assert(sp_eq(osk, kv), "C04 keypair_create: secret half is the key");
+            __CPROVER_assert(g_gen_n >= 1 && sp_eq(sval(&g_gen_a0), kv), "C04 keypair_create: the generator is multiplied by the key");
+            __CPROVER_assert(g_sg_n >= 1 && GEJ_EQ(g_sg_a0, g_gen_r0), "C04 keypair_create: the point converted is the multiplication result");
+            { secp256k1_context c2; secp256k1_pubkey pub; verif_ctx_init(&c2); (void)secp256k1_keypair_pub(&c2, &pub, &kp);
+              __CPROVER_assert(pk64_is(pub.data, &g_sg_r0.x, &g_sg_r0.y), "C04 keypair_create: public half is the converted point (coordinates mod p)"); }
         }
         if (ret == 1) REACH("keypair_create success");
         if (ret == 0 && !sp_is0(kv)) REACH("keypair_create key >= n");
     }
-    if (use_kp && !built) REACH("keypair_create static context");
+    if (use_kp && use_key && !built) REACH("keypair_create static context");
+    if (!use_kp) REACH("keypair_create NULL keypair");
 }
 #endif
 
 #ifdef U_KEYPAIR_XONLY_TWEAK_ADD
 void h_keypair_xonly_tweak_add(void) {
     secp256k1_context ctx;
-    INPUT(secp256k1_keypair, kp); INPUT_ARR(unsigned char, tweak, 32); INPUT(_Bool, use_kp); INPUT(_Bool, use_tweak); INPUT(size_t, k);
-    int ret, kp_valid, odd; sp skv = sp_be32(kp.data), xv = sp_le32(kp.data + 32), yv = sp_le32(kp.data + 64), tv = sp_be32(tweak), sk1, sum;
+    INPUT(secp256k1_keypair, kp); INPUT_ARR(unsigned char, tweak, 32); INPUT(_Bool, use_kp); INPUT(_Bool, use_tweak);
+    int ret, kp_valid, odd, pinv, oinv, canon; sp skv, xv, yv, tv = sp_be32(tweak), sk1, sum, osk, ox, oy;
     verif_ctx_init(&ctx); LOGS_RESET();
-    __CPROVER_assume(k < 96);
-    kp_valid = !sp_is0(xv) && sp_seckey_valid(skv);
+    view_keypair(&kp, &skv, &xv, &yv, &pinv);
+    { secp256k1_context c2; secp256k1_pubkey pub; verif_ctx_init(&c2); (void)secp256k1_keypair_pub(&c2, &pub, &kp); canon = sp_lt(view_pk64_rawy(pub.data), sp_p()); verif_ctx_init(&ctx); }
+    kp_valid = !pinv && sp_seckey_valid(skv);
     ret = secp256k1_keypair_xonly_tweak_add(&ctx, use_kp ? &kp : NULL, use_tweak ? tweak : NULL);
     __CPROVER_assert(g_error == 0, "C04 keypair_xonly_tweak_add: error callback never invoked");
-    if (!use_kp || !use_tweak) __CPROVER_assert(ret == 0 && g_illegal == 1 && g_ecmult_n == 0, "C04 keypair_xonly_tweak_add: NULL argument is illegal and returns 0");
+    if (!use_kp || !use_tweak) __CPROVER_assert(ret == 0 && g_illegal == 1, "C04 keypair_xonly_tweak_add: NULL argument is illegal and returns 0");
     else {
-        if (ret == 0) __CPROVER_assert(kp.data[k] == 0, "C04 keypair_xonly_tweak_add: every failure leaves an all-zero (invalid) keypair");
-        if (!kp_valid) __CPROVER_assert(ret == 0 && g_illegal == 1, "C04 keypair_xonly_tweak_add: invalid keypair object is illegal and returns 0");
-        if (!sp_lt(tv, sp_n())) __CPROVER_assert(ret == 0 && g_ecmult_n == 0, "C04 keypair_xonly_tweak_add: tweak >= n returns 0 without curve work");
-        if (kp_valid) {
+        view_keypair(&kp, &osk, &ox, &oy, &oinv);
+        if (ret == 0) __CPROVER_assert(oinv || !sp_seckey_valid(osk), "C04 keypair_xonly_tweak_add: on failure the keypair is set to an invalid value (rejected by keypair_load)");
+        if (!kp_valid) __CPROVER_assert(ret == 0 && g_illegal >= 1, "C04 keypair_xonly_tweak_add: invalid keypair object is illegal and returns 0");
+        else {
             __CPROVER_assert(g_illegal == 0, "C04 keypair_xonly_tweak_add: no illegal callback for a valid keypair");
-            if (sp_lt(yv, sp_p()) && sp_lt(tv, sp_n())) {
+            if (!sp_lt(tv, sp_n())) __CPROVER_assert(ret == 0, "C04 keypair_xonly_tweak_add: tweak >= n returns 0");
+            else if (canon) {
                 odd = sp_odd(yv);
                 sk1 = odd ? sp_sub(sp_n(), skv) : skv;                 /* secret key of the even-y point */
                 sum = sp_modn(sp_add(sk1, tv));
-                __CPROVER_assert(g_ecmult_n == 1 && sp_eq(fval(&g_ecmult_a0.x), xv) && sp_eq(sp_modp(fval(&g_ecmult_a0.y)), odd ? sp_sub(sp_p(), yv) : yv)
-                                 && sp_eq(fval(&g_ecmult_a0.z), sp_u64(1)) && !g_ecmult_a0.infinity, "C04 keypair_xonly_tweak_add: the point tweaked is the even-y lift of the keypair's public key");
-                __CPROVER_assert(g_ecmult_has_na0 && sp_eq(sval(&g_ecmult_na0), sp_u64(1)) && g_ecmult_has_ng0 && sp_eq(sval(&g_ecmult_ng0), tv), "C04 keypair_xonly_tweak_add: ecmult computes 1*P + tweak*G");
+                __CPROVER_assert(g_ecmult_n >= 1 && IS_POINT(g_ecmult_a0, xv, odd ? sp_negp(yv) : yv), "C04 keypair_xonly_tweak_add: the point tweaked is the even-y lift of the keypair's public key");
+                __CPROVER_assert(ADDS_TWEAK(tv), "C04 keypair_xonly_tweak_add: ecmult computes 1*P + tweak*G");
                 __CPROVER_assert(ret == (!sp_is0(sum) && !g_ecmult_r0.infinity), "C04 keypair_xonly_tweak_add: fails exactly when the tweaked secret is 0 or the tweaked point is infinity");
                 if (ret == 1) {
-                    __CPROVER_assert(sp_eq(sp_be32(kp.data), sum), "C04 keypair_xonly_tweak_add: secret half = (sk negated iff y odd) + tweak mod n");
-                    __CPROVER_assert(g_sg_n == 1 && GEJ_EQ(g_sg_a0, g_ecmult_r0) && PK_IS(kp.data + 32, g_sg_r0), "C04 keypair_xonly_tweak_add: public half is the ecmult result, reduced mod p");
+                    __CPROVER_assert(sp_eq(osk, sum), "C04 keypair_xonly_tweak_add: secret half = (sk negated iff y odd) + tweak mod n");
+                    __CPROVER_assert(g_sg_n >= 1 && GEJ_EQ(g_sg_a0, g_ecmult_r0), "C04 keypair_xonly_tweak_add: the point converted is the ecmult result");
+                    { secp256k1_context c2; secp256k1_pubkey pub; int si = g_illegal; verif_ctx_init(&c2); (void)secp256k1_keypair_pub(&c2, &pub, &kp); g_illegal = si;
+                      __CPROVER_assert(pk64_is(pub.data, &g_sg_r0.x, &g_sg_r0.y), "C04 keypair_xonly_tweak_add: public half is the converted point (coordinates mod p)"); }
                     if (odd) REACH("keypair_xonly_tweak_add odd y success"); else REACH("keypair_xonly_tweak_add even y success");
                 }
                 if (sp_is0(sum)) REACH("keypair_xonly_tweak_add tweak == -sk");
@@ -85,13 +94,8 @@ void h_keypair_xonly_tweak_add(void) {
         if (!kp_valid) REACH("keypair_xonly_tweak_add invalid keypair");
         if (kp_valid && sp_eq(tv, sp_n())) REACH("keypair_xonly_tweak_add tweak == n");
     }
+    if (!use_kp || !use_tweak) REACH("keypair_xonly_tweak_add NULL argument");
 }
-#endif
-
-#if defined(U_XONLY_TWEAK_ADD) || defined(U_XONLY_TWEAK_ADD_CHECK)
-/* shared wiring clause: exactly one ecmult, 1*P + tweak*G, P = the x-only key as stored */
-#define WIRING_OK(xv, yv, tv) (g_ecmult_n == 1 && sp_eq(fval(&g_ecmult_a0.x), xv) && sp_eq(fval(&g_ecmult_a0.y), yv) && sp_eq(fval(&g_ecmult_a0.z), sp_u64(1)) && !g_ecmult_a0.infinity \
-    && g_ecmult_has_na0 && sp_eq(sval(&g_ecmult_na0), sp_u64(1)) && g_ecmult_has_ng0 && sp_eq(sval(&g_ecmult_ng0), tv))
 #endif
 
 #ifdef U_XONLY_TWEAK_ADD
@@ -100,27 +104,30 @@ void h_xonly_tweak_add(void) {
     INPUT(secp256k1_pubkey, out); INPUT(secp256k1_xonly_pubkey, ipk); INPUT_ARR(unsigned char, tweak, 32);
     INPUT(_Bool, use_out); INPUT(_Bool, use_ipk); INPUT(_Bool, use_tweak); INPUT(size_t, k);
     secp256k1_xonly_pubkey ipk0 = ipk;
-    int ret; sp xv = sp_le32(ipk.data), yv = sp_le32(ipk.data + 32), tv = sp_be32(tweak);
+    int ret, inv, oinv; sp xv, yv, ox, oy, tv = sp_be32(tweak);
     verif_ctx_init(&ctx); LOGS_RESET();
     __CPROVER_assume(k < 64);
+    view_pk64(ipk.data, &xv, &yv, &inv);
     ret = secp256k1_xonly_pubkey_tweak_add(&ctx, use_out ? &out : NULL, use_ipk ? &ipk : NULL, use_tweak ? tweak : NULL);
     __CPROVER_assert(g_error == 0, "C04 xonly_tweak_add: error callback never invoked");
-    __CPROVER_assert(ipk.data[k] == ipk0.data[k], "C04 xonly_tweak_add: internal key is not modified");
-    if (use_out && ret == 0) __CPROVER_assert(out.data[k] == 0, "C04 xonly_tweak_add: every failure leaves an all-zero (invalid) output pubkey");
-    if (!use_out || !use_ipk || !use_tweak) __CPROVER_assert(ret == 0 && g_illegal == 1 && g_ecmult_n == 0, "C04 xonly_tweak_add: NULL argument is illegal and returns 0");
-    else if (sp_is0(xv)) __CPROVER_assert(ret == 0 && g_illegal == 1 && g_ecmult_n == 0, "C04 xonly_tweak_add: invalid internal key is illegal and returns 0");
+    __CPROVER_assert(ipk.data[k] == ipk0.data[k], "C04 xonly_tweak_add: internal key (const) is not modified");
+    if (!use_out || !use_ipk || !use_tweak) __CPROVER_assert(ret == 0 && g_illegal == 1, "C04 xonly_tweak_add: NULL argument is illegal and returns 0");
+    else if (inv) __CPROVER_assert(ret == 0 && g_illegal == 1, "C04 xonly_tweak_add: invalid internal key is illegal and returns 0");
     else {
+        view_pk64(out.data, &ox, &oy, &oinv);
         __CPROVER_assert(g_illegal == 0, "C04 xonly_tweak_add: no illegal callback for valid arguments");
-        if (!sp_lt(tv, sp_n())) __CPROVER_assert(ret == 0 && g_ecmult_n == 0, "C04 xonly_tweak_add: tweak >= n returns 0 without curve work");
+        if (ret == 0) __CPROVER_assert(oinv, "C04 xonly_tweak_add: on failure the output is set to an invalid value (rejected by pubkey_load)");
+        if (!sp_lt(tv, sp_n())) __CPROVER_assert(ret == 0, "C04 xonly_tweak_add: tweak >= n returns 0");
         else {
-            __CPROVER_assert(WIRING_OK(xv, yv, tv), "C04 xonly_tweak_add: one ecmult computing 1*P + tweak*G on the internal key");
+            __CPROVER_assert(g_ecmult_n >= 1 && IS_POINT(g_ecmult_a0, xv, yv) && ADDS_TWEAK(tv), "C04 xonly_tweak_add: ecmult computes 1*P + tweak*G on the internal key");
             __CPROVER_assert(ret == !g_ecmult_r0.infinity, "C04 xonly_tweak_add: fails exactly when the sum is the point at infinity");
-            if (ret == 1) __CPROVER_assert(g_sg_n == 1 && GEJ_EQ(g_sg_a0, g_ecmult_r0) && PK_IS(out.data, g_sg_r0), "C04 xonly_tweak_add: output holds the ecmult result, reduced mod p");
+            if (ret == 1) __CPROVER_assert(g_sg_n >= 1 && GEJ_EQ(g_sg_a0, g_ecmult_r0) && pk64_is(out.data, &g_sg_r0.x, &g_sg_r0.y), "C04 xonly_tweak_add: output holds the ecmult result (coordinates mod p)");
         }
         if (ret == 1) REACH("xonly_tweak_add success");
         if (sp_lt(tv, sp_n()) && ret == 0) REACH("xonly_tweak_add infinity");
         if (sp_eq(tv, sp_n())) REACH("xonly_tweak_add tweak == n");
     }
+    if (use_out && use_ipk && use_tweak && inv) REACH("xonly_tweak_add invalid internal key");
 }
 #endif
 
@@ -129,21 +136,22 @@ void h_xonly_tweak_add_check(void) {
     secp256k1_context ctx;
     INPUT_ARR(unsigned char, tpk32, 32); INPUT(int, parity); INPUT(secp256k1_xonly_pubkey, ipk); INPUT_ARR(unsigned char, tweak, 32);
     INPUT(_Bool, use_tpk); INPUT(_Bool, use_ipk); INPUT(_Bool, use_tweak);
-    int ret, expect; sp xv = sp_le32(ipk.data), yv = sp_le32(ipk.data + 32), tv = sp_be32(tweak), qx, qy;
+    int ret, expect, inv; sp xv, yv, tv = sp_be32(tweak), qx, qy;
     verif_ctx_init(&ctx); LOGS_RESET();
+    view_pk64(ipk.data, &xv, &yv, &inv);
     ret = secp256k1_xonly_pubkey_tweak_add_check(&ctx, use_tpk ? tpk32 : NULL, parity, use_ipk ? &ipk : NULL, use_tweak ? tweak : NULL);
     __CPROVER_assert(g_error == 0, "C04 xonly_tweak_add_check: error callback never invoked");
     __CPROVER_assert(ret == 0 || ret == 1, "C04 xonly_tweak_add_check: returns 0 or 1");
-    if (!use_tpk || !use_ipk || !use_tweak) __CPROVER_assert(ret == 0 && g_illegal == 1 && g_ecmult_n == 0, "C04 xonly_tweak_add_check: NULL argument is illegal and returns 0");
-    else if (sp_is0(xv)) __CPROVER_assert(ret == 0 && g_illegal == 1 && g_ecmult_n == 0, "C04 xonly_tweak_add_check: invalid internal key is illegal and returns 0");
+    if (!use_tpk || !use_ipk || !use_tweak) __CPROVER_assert(ret == 0 && g_illegal == 1, "C04 xonly_tweak_add_check: NULL argument is illegal and returns 0");
+    else if (inv) __CPROVER_assert(ret == 0 && g_illegal == 1, "C04 xonly_tweak_add_check: invalid internal key is illegal and returns 0");
     else {
         __CPROVER_assert(g_illegal == 0, "C04 xonly_tweak_add_check: no illegal callback for valid arguments");
-        if (!sp_lt(tv, sp_n())) __CPROVER_assert(ret == 0 && g_ecmult_n == 0, "C04 xonly_tweak_add_check: tweak >= n returns 0 without curve work");
+        if (!sp_lt(tv, sp_n())) __CPROVER_assert(ret == 0, "C04 xonly_tweak_add_check: tweak >= n returns 0");
         else {
-            __CPROVER_assert(WIRING_OK(xv, yv, tv), "C04 xonly_tweak_add_check: one ecmult computing 1*P + tweak*G on the internal key");
+            __CPROVER_assert(g_ecmult_n >= 1 && IS_POINT(g_ecmult_a0, xv, yv) && ADDS_TWEAK(tv), "C04 xonly_tweak_add_check: ecmult computes 1*P + tweak*G on the internal key");
             if (g_ecmult_r0.infinity) __CPROVER_assert(ret == 0, "C04 xonly_tweak_add_check: sum at infinity is rejected");
             else {
-                __CPROVER_assert(g_sg_n == 1 && GEJ_EQ(g_sg_a0, g_ecmult_r0), "C04 xonly_tweak_add_check: the point compared is the ecmult result");
+                __CPROVER_assert(g_sg_n >= 1 && GEJ_EQ(g_sg_a0, g_ecmult_r0), "C04 xonly_tweak_add_check: the point compared is the ecmult result");
                 qx = sp_modp(fval(&g_sg_r0.x)); qy = sp_modp(fval(&g_sg_r0.y));
                 expect = sp_eq(sp_be32(tpk32), qx) && (sp_odd(qy) == parity);
                 __CPROVER_assert(ret == expect, "C04 xonly_tweak_add_check: accepts exactly the (x, parity) pair of the tweaked point");
@@ -151,8 +159,10 @@ void h_xonly_tweak_add_check(void) {
                 if (ret == 1 && parity == 0) REACH("xonly_tweak_add_check accepts even");
                 if (ret == 0 && sp_eq(sp_be32(tpk32), qx)) REACH("xonly_tweak_add_check x equal, parity differs");
                 if (ret == 0 && (sp_odd(qy) == parity)) REACH("xonly_tweak_add_check parity equal, x differs");
+                if (!sp_lt(sp_be32(tpk32), sp_p())) REACH("xonly_tweak_add_check non-canonical x string (>= p)");
             }
         }
     }
+    if (use_tpk && use_ipk && use_tweak && inv) REACH("xonly_tweak_add_check invalid internal key");
 }
 #endif
